@@ -8,7 +8,7 @@ from multiprocessing import Pool
 sys.path.insert(0, os.path.join(os.path.dirname(os.path.abspath(__file__)), ".."))
 from vf.props import c20  # noqa: E402
 
-DEPTHS = [3, 4, 5, 6]
+DEPTHS = [3, 4, 5, 6, 8, 12]
 
 
 def run(name):
